@@ -1034,7 +1034,10 @@ def split_tuple_lets(root):
                 p_, i_ = s["pat"], hir.simp(s["init"])
                 subs = p_.get("pats") if p_.get("k") == "ptuple" else None
                 if subs is not None and i_.get("k") == "tuple" and len(i_.get("es", [])) == len(subs) and len(subs) > 0 \
-                        and all(q.get("k") == "pbind" and "sub" not in q for q in subs) and all(pure(x) for x in i_["es"]):
+                        and all(q.get("k") == "pbind" and "sub" not in q for q in subs) and \
+                        (all(pure(x) for x in i_["es"]) or
+                         not ({q.get("name") for q in subs} & {y.get("name") for x in i_["es"] for y in all_nodes(x) if y.get("k") == "local"})):
+                    # (elements are evaluated left to right in both forms; binding a plain name has no effect of its own)
                     for q, x in zip(subs, i_["es"]):
                         out.append({"k": "let", "pat": q, "init": x, "ln": s.get("ln"), "norm": "unrolled" if s.get("norm") == "unrolled" else "tuple-let"})
                     changed = True
